@@ -516,6 +516,9 @@ func runC15(c *Ctx) {
 		pe := g.predEdges(phi.Block())
 		okAll, hasParam, hasConst := true, false, false
 		for i, e := range phi.Edges {
+			if e == ssa.Value(phi) {
+				continue // carried round the padding loop unchanged
+			}
 			if e == ssa.Value(padP) {
 				ef := g.FactsAt(pe[i].From)
 				if ft, ok := g.EdgeFact(pe[i].From, pe[i].K); ok {
